@@ -694,8 +694,8 @@ class Prop:
     HDR_ASNS = [0x02010000, 0x03FF0203, 65002, 0x01020304, 0x04000000, 0x0000FDE9]
 
     def a_ctx(self, role, confed=0, laddr=0):
-        la = [0, [192, 0, 2, 1]] if laddr == 0 else [1, [0x20, 1, 0xd, 0xb8] + [0] * 11 + [0xfe]]
-        return [role, LOCAL_AS, la, [self.LL] if laddr == 2 else [], confed]
+        la = [0, [192, 0, 2, 1]] if laddr in (0, 3) else [1, [0x20, 1, 0xd, 0xb8] + [0] * 11 + [0xfe]]
+        return [role, LOCAL_AS, la, [self.LL] if laddr in (2, 3) else [], confed]
 
     def a_src(self, kind, llgr=0, addr=None):
         """kind: 'local' | 'kernel' | role number"""
@@ -824,7 +824,7 @@ class Prop:
         nhs = [[], [[0, [10, 0, 0, 9]]], [[0, [0, 0, 0, 0]]], [[1, self.A_PEER6[1]]], [[1, [0] * 16]], [[2, self.A_PEER6[1], self.LL]],
                [[2, [0] * 16, self.LL]]]
         for nh in nhs:
-            for la in (0, 1, 2):
+            for la in (0, 1, 2, 3):
                 for il in (0, 1):
                     for role in ROLES:
                         for fam in (IPV4, IPV6, FLOWSPEC4, FLOWSPEC6, FLOWSPEC4_VPN, FLOWSPEC6_VPN):
@@ -945,6 +945,22 @@ class Prop:
                             add('cls_process_states_addpath', [9, x, emax, self.A_RX, [], [IPV4, 1, bc, ac, rep, od], em, [1, 2]])
         for emax in (0, 255, 256, 65536):
             add('cls_process_send_max_values', [9, x, emax, self.A_RX, [], [IPV4, 1, 1, 1, [], labelled], [2, [[1, [2]]]], [1, 2]])
+        # ---- send-max cuts the list: three paths that may go, every order, send-max below / at / above their number
+        l4 = [labelled[0], labelled[1], mk(4, [0, [10, 0, 0, 4]])]
+        for od in itertools.permutations(l4, 3):
+            for emax in (1, 2, 3, 4):
+                for sent_ids in ([], [1, 2], [1, 2, 4], [4]):
+                    em = ([1, [1]] if sent_ids else [1, []]) if emax == 1 else ([2, [[1, sent_ids]]] if sent_ids else [2, []])
+                    for rep in ([], [4]):
+                        add('cls_send_max_truncation', [9, x, emax, self.A_RX, [], [IPV4, 1, 1, 1, rep, list(od)], em, [1, 2]])
+        # ---- the echo test between IPv6 sessions, and an IPv4 / IPv6 pair that must not be confused
+        rx6 = self.A_PEER6
+        for saddr, ra in ((rx6, rx6), (rx6, [1, rx6[1][:15] + [3]]), ([0, rx6[1][:4]], rx6), (self.A_RX, [1, [0] * 12 + self.A_RX[1]])):
+            for emax in (1, 2):
+                pth = [1, self.a_src(EBGP, 0, saddr), [[1, rx6[1]]], [[ORIGIN, 0x40, 0, 0], self.a_path_attr([(2, [65002])])]]
+                c9 = self.a_one(self.a_ctx(EBGP, 0, 2), emax, [], pth)
+                c9[2] = ra
+                add('cls_echo_address_families', [9] + c9)
         # ---- the as-prepend action next to the 255-entry limit, and its left-most form
         for headn in (None, 0, 1, 253, 254, 255):
             for rep_ in (0, 1, 2, 3):
